@@ -11,6 +11,10 @@ package recover
 //@   ensures[C09] login_announced: each Sess.Put("uid", _) => after Fire("After", EventAuth, _, _, _)
 //@   -- C09: the stamp the announcement queues is not taken back by anything queued after it
 //@   ensures[C09] stamp_survives: each Fire("After", EventAuth, _, _, _) => !(after Sess.DelAll(_)) && !(after Sess.Del("last_action"))
+//@   -- C09: an announcement that failed (a handler in the chain errored, so later ones - the
+//@   -- stamp - did not run) is an error outcome, not a completed login
+//@   ensures[C09] announcement_error_outcome: each Fire("After", EventAuth, _, _, _) -> (_, ?fe) => fe != nil ==>
+//@       (result == fe && !emits Redirect(_) && !emits Respond(_, _, _))
 //@   ensures[C17] no_secret_leak: secrets_clean
 //@   -- C05: the password is only changed on the strength of a token that decodes to
 //@   -- exactly 64 bytes whose first half selects the account and whose second half
@@ -34,7 +38,7 @@ package recover
 //@       before Fire("After", EventRecoverEnd, ?cu, _, _) -> (_, ?fe) :: fe == nil && before Store.Save(?s) -> ?e :: e == nil && cu == s
 //@   ensures[C06] event_error_outcome: each Fire("After", EventRecoverEnd, _, _, _) -> (_, ?fe) => fe != nil ==>
 //@       (result == fe && !emits Redirect(_) && !emits Sess.Put(_, _))
-//@   ensures[C05] reject_changes_nothing: (each Sess.Put(_, _) => before Store.Save(_) -> ?e :: e == nil) && !emits Sess.Del(_) && !emits Cook.Put(_, _)
+//@   ensures[C05] reject_changes_nothing: (each Sess.Put(_, _) => before Store.Save(_) -> ?e :: e == nil) && !emits Sess.Del(_) && !emits Sess.DelAll(_) && !emits Cook.Put(_, _)
 //@   -- C01: logging in after recovery needs the configuration flag and the saved change
 //@   ensures[C01] session_guard: each Sess.Put(?k, ?v) => k == "uid" && r.Config.Modules.RecoverLoginAfterRecovery &&
 //@       before Store.Save(?s) -> ?e :: e == nil && PID(s) == v
@@ -70,7 +74,7 @@ package recover
 //@   -- exists or not, and it never touches the session or cookies
 //@   ensures[C16] recover_same: (each Redirect(?ro) => ro.Code == 307 && ro.RedirectPath == r.Config.Paths.RecoverOK &&
 //@           ro.Success == loc(r.Authboss, TxtRecoverInitiateSuccessFlash) && ro.Failure == "" && ro.FollowRedirParam == false) &&
-//@       !emits Sess.Put(_, _) && !emits Sess.Del(_) && !emits Cook.Put(_, _) && !emits Cook.Del(_) &&
+//@       !emits Sess.Put(_, _) && !emits Sess.Del(_) && !emits Sess.DelAll(_) && !emits Cook.Put(_, _) && !emits Cook.Del(_) &&
 //@       !emits HeaderSet(_, _, _) && !emits WriteHeader(_, _) && !emits Write(_, _) && !emits HTTPRedirect(_, _, _)
 //@   ensures[C16] unknown_account_fakes_success: each Store.Load(_) -> (_, ?le) => le == ErrUserNotFound ==> (after Redirect(_) && !emits Respond(_, _, _))
 //@   ensures[C16] known_account_same_answer: (result == nil && !emits Respond(_, _, _) && !(emits Fire("Before", _, _, _, _) -> (?hd, _) :: hd)) ==> emits Redirect(_)
@@ -80,6 +84,6 @@ package recover
 //@   ensures[C17] no_secret_leak: secrets_clean
 //@   -- C05: opening the mailed link only shows the form: it neither looks the token up nor
 //@   -- changes anything stored or in the session (validity is decided by EndPost alone)
-//@   ensures[C05] get_changes_nothing: !emits Store.Save(_) && !emits Store.LoadByRecoverSelector(_) && !emits Sess.Put(_, _) && !emits Sess.Del(_) &&
+//@   ensures[C05] get_changes_nothing: !emits Store.Save(_) && !emits Store.LoadByRecoverSelector(_) && !emits Sess.Put(_, _) && !emits Sess.Del(_) && !emits Sess.DelAll(_) &&
 //@       !emits Cook.Put(_, _) && !emits Cook.Del(_)
 
